@@ -424,6 +424,73 @@ func runC03(p *an.Prog, r *an.Run, tier string) {
 		}
 	}
 
+	checkCutoff(p, r)
+	checkLowBalanceText(p, r)
+}
+
+// checkLowBalanceText: what the refused client and the operator's log get to see is the error's text; it reports the
+// balance as the balance and the minimum as the minimum: in LowBalanceError.Error each formatted operand is the field
+// the words in front of its verb announce ("current ... %d" <- CurrentBalance, "minimum ... %d" <- MinBalance).
+func checkLowBalanceText(p *an.Prog, r *an.Run) {
+	em := p.Method("pool/balance", "LowBalanceError", "Error")
+	if em == nil {
+		r.Undec("error-text", "balance.LowBalanceError.Error", token.NoPos, "method not found")
+		return
+	}
+	var bad []string
+	n := 0
+	for _, c := range an.Calls(em, false) {
+		if !an.IsFunc(an.CallObj(c), "fmt", "Sprintf") || len(c.Common().Args) != 2 {
+			continue
+		}
+		format, ok := an.ConstString(c.Common().Args[0])
+		els, ok2 := variadicElems(c.Common().Args[1])
+		if !ok || !ok2 {
+			continue
+		}
+		// text segments in front of each verb
+		var segs []string
+		last := 0
+		for i := 0; i < len(format); i++ {
+			if format[i] != '%' {
+				continue
+			}
+			if i+1 < len(format) && format[i+1] == '%' {
+				i++
+				continue
+			}
+			segs = append(segs, strings.ToLower(format[last:i]))
+			last = i
+		}
+		for i, seg := range segs {
+			if i >= len(els) {
+				break
+			}
+			want := ""
+			switch {
+			case strings.Contains(seg, "minim"):
+				want = "MinBalance"
+			case strings.Contains(seg, "current") || strings.Contains(seg, "balance"):
+				want = "CurrentBalance"
+			}
+			if want == "" {
+				continue
+			}
+			n++
+			d := p.Derives(0, els[i])
+			other := map[string]string{"MinBalance": "CurrentBalance", "CurrentBalance": "MinBalance"}[want]
+			if !d.HasFieldNamed("LowBalanceError", want) || d.HasFieldNamed("LowBalanceError", other) {
+				bad = append(bad, "the text announces the "+map[string]string{"MinBalance": "minimum", "CurrentBalance": "current balance"}[want]+" in front of verb "+itoa(i+1)+" but formats "+other+" there: the client is told the wrong balance")
+			}
+		}
+	}
+	r.Floor("low-balance-text-operands", n, 2)
+	r.Check(len(bad) == 0, "error-text", "balance.LowBalanceError.Error", em.Pos(), "each formatted operand is the field its words announce", "%s", strings.Join(bad, "; "))
+}
+
+// checkCutoff: Update calls disconnectPeers on a LowBalanceError before returning, and disconnectPeers tells every
+// connected peer (shared with C09: a connected host that is skipped is a host that cannot be instructed).
+func checkCutoff(p *an.Prog, r *an.Run) {
 	// cutoff
 	upd := p.Method("pool", "VipnodePool", "Update")
 	dis := p.Method("pool", "VipnodePool", "disconnectPeers")
@@ -565,6 +632,20 @@ func runC03(p *an.Prog, r *an.Run, tier string) {
 			}
 			if !inc {
 				bad = append(bad, "a disconnect call is spawned without being counted (its result is never awaited)")
+			}
+			// every connected peer is told: after one call has been started the loop goes on to the next peer
+			if h := loopHeader(g.Block()); h != nil {
+				leaves := func(x ssa.Instruction) bool {
+					if _, isRet := x.(*ssa.Return); isRet {
+						return true
+					}
+					return !h.Dominates(x.Block())
+				}
+				if hit := an.PathAvoiding(g.Parent(), g, func(x ssa.Instruction) bool { return x.Block() == h }, leaves, nil); hit != nil {
+					bad = append(bad, "after starting one disconnect call the loop over the peers can be left ("+p.Pos(hit.Pos())+") instead of going on: only the first connected host is asked to drop the client")
+				}
+			} else {
+				bad = append(bad, "the disconnect call is not started inside a loop over the peers")
 			}
 		})
 		if nGo != 1 {
